@@ -5077,6 +5077,10 @@ func popcountAndSlice(s, m []uint64) uint64 {
 const (
 	serialCookieNoRunContainer = 12346 // only arrays and bitmaps
 	serialCookie               = 12347 // runs, arrays, and bitmaps
+	// noOffsetThreshold is the container count from which a bitmap written
+	// with serialCookie carries an offset header (NO_OFFSET_THRESHOLD in the
+	// Roaring format specification).
+	noOffsetThreshold = 4
 )
 
 func readOfficialHeader(buf []byte) (size uint32, containerTyper func(index uint, card int) byte, header, pos int, haveRuns bool, err error) {
@@ -5136,6 +5140,16 @@ func readOfficialHeader(buf []byte) (size uint32, containerTyper func(index uint
 		return size, containerTyper, header, pos, haveRuns, err
 	}
 	pos += 2 * 2 * int(size) // moving pos past keycount
+	// With the run cookie the format only carries an offset header when there
+	// are at least noOffsetThreshold containers. The run-aware readers walk
+	// the containers sequentially, so step over it.
+	if haveRuns && size >= noOffsetThreshold {
+		if pos+4*int(size) > len(buf) {
+			err = fmt.Errorf("malformed bitmap, offset header overruns buffer at %d", pos+4*int(size))
+			return size, containerTyper, header, pos, haveRuns, err
+		}
+		pos += 4 * int(size)
+	}
 	return size, containerTyper, header, pos, haveRuns, err
 }
 
